@@ -243,6 +243,9 @@ class Evaluator:
                 return base.__dict__
             if n.attr in base.__dict__:
                 return base.__dict__[n.attr]
+            model = getattr(type(base), "_model", None)
+            if model is not None and n.attr in model.init_literals:
+                return model.init_literals[n.attr]
             raise Unfoldable(f"attribute {n.attr} not in domain object")
         if isinstance(base, tuple) and hasattr(base, "_fields") and n.attr in base._fields:
             return getattr(base, n.attr)
@@ -492,6 +495,9 @@ class Evaluator:
                 return recv.__dict__[a](*args, **kwargs)
             if getattr(type(recv), "_fold_ok", False) and callable(getattr(recv, a, None)):
                 return getattr(recv, a)(*args, **kwargs)  # method of a sample-domain class supplied by the rule
+            model = getattr(type(recv), "_model", None)
+            if model is not None and model.has(a):
+                return model.call(a, recv, args, kwargs)  # real method of the class in /repo, lifted on demand
             if isinstance(recv, str) and a in _STR_METHODS:
                 return self._builtin(getattr(recv, a), args, kwargs)
             if isinstance(recv, (dict, list, tuple, set)) and a in _CONTAINER_METHODS:
@@ -824,3 +830,93 @@ class Lifted:
         if kind == "raise":
             raise Raised(val)
         return val if kind == "return" else None
+
+
+def lift_module_helpers(tree: ast.Module, funcs: Dict[str, Callable], consts=None, env=None, state: Optional[dict] = None,
+                        skip=()) -> None:
+    """Interprocedural folding inside one module: every module-level `def` of `tree` that `funcs` does not already bind
+    becomes a Lifted callable sharing `funcs`; module-level container literals (`NAME = {}` / `[]` / `set()` / `dict()`)
+    become shared objects in `env` that live in `state` for as long as the caller keeps it (= the process); a helper
+    decorated with a cache is memoised in `state` likewise."""
+    state = state if state is not None else {}
+    env = env if env is not None else {}
+    glob = state.setdefault("globals", {})
+    for node in tree.body:
+        tgt, val = None, None
+        if isinstance(node, ast.Assign) and len(node.targets) == 1 and isinstance(node.targets[0], ast.Name):
+            tgt, val = node.targets[0].id, node.value
+        elif isinstance(node, ast.AnnAssign) and isinstance(node.target, ast.Name) and node.value is not None:
+            tgt, val = node.target.id, node.value
+        if tgt is None or tgt in env:
+            continue
+        fresh = None
+        if isinstance(val, ast.Dict) and not val.keys:
+            fresh = dict
+        elif isinstance(val, ast.List) and not val.elts:
+            fresh = list
+        elif isinstance(val, ast.Call) and not val.args and not val.keywords and ast.unparse(val.func) in ("dict", "list", "set"):
+            fresh = {"dict": dict, "list": list, "set": set}[ast.unparse(val.func)]
+        if fresh is not None:
+            if tgt not in glob:
+                glob[tgt] = fresh()
+            env[tgt] = glob[tgt]
+    for node in tree.body:
+        if isinstance(node, ast.FunctionDef) and node.name not in funcs and node.name not in skip:
+            h = Lifted(node, funcs, consts, env)
+            h.funcs = funcs  # shared: helpers may call each other and the stubs of the current scenario
+            h.env = env
+            if any("cache" in ast.unparse(d) for d in node.decorator_list):
+                memo = state.setdefault("memo:" + node.name, {})
+
+                def cached(*a, _h=h, _m=memo, **k):
+                    key = repr((a, sorted(k.items())))
+                    if key not in _m:
+                        _m[key] = _h(*a, **k)
+                    return _m[key]
+                funcs[node.name] = cached
+            else:
+                funcs[node.name] = h
+
+
+class ClassModel:
+    """Methods of one class of /repo, lifted on demand: an instance made by `instance(**attrs)` answers attribute reads
+    from its own attributes (the rule's stubs) first and falls back to the class's real methods for anything else, so
+    a routine that starts calling another method of the class is still folded through the code of /repo."""
+
+    def __init__(self, cls_node: ast.ClassDef, funcs=None, consts=None, env=None):
+        self.node = cls_node
+        self.funcs, self.consts, self.env = funcs if funcs is not None else {}, consts, env if env is not None else {}
+        self.defs = {n.name: n for n in cls_node.body if isinstance(n, ast.FunctionDef)}
+        self.methods: Dict[str, Lifted] = {}
+        self.cls = type(cls_node.name + "Instance", (Obj,), {"_model": self})
+        # attributes the constructor initialises with a literal: a stub that does not set them reads that literal
+        self.init_literals: Dict[str, Any] = {}
+        init = self.defs.get("__init__")
+        if init is not None and init.args.args:
+            me = init.args.args[0].arg
+            for n in ast.walk(init):
+                tgt, val = None, None
+                if isinstance(n, ast.Assign) and len(n.targets) == 1:
+                    tgt, val = n.targets[0], n.value
+                elif isinstance(n, ast.AnnAssign) and n.value is not None:
+                    tgt, val = n.target, n.value
+                if isinstance(tgt, ast.Attribute) and isinstance(tgt.value, ast.Name) and tgt.value.id == me and isinstance(val, ast.Constant):
+                    self.init_literals[tgt.attr] = val.value
+
+    def has(self, name):
+        return name in self.defs
+
+    def is_static(self, name):
+        return any(ast.unparse(d) in ("staticmethod",) for d in self.defs[name].decorator_list)
+
+    def call(self, name, recv, args, kwargs):
+        if name not in self.methods:
+            m = Lifted(self.defs[name], self.funcs, self.consts, self.env)
+            m.funcs, m.env = self.funcs, self.env
+            self.methods[name] = m
+        if self.is_static(name):
+            return self.methods[name](*args, **kwargs)
+        return self.methods[name](recv, *args, **kwargs)
+
+    def instance(self, **attrs):
+        return self.cls(**attrs)
